@@ -1,6 +1,7 @@
 package main
 
 import (
+	"regexp"
 	"strconv"
 	"go/constant"
 	"fmt"
@@ -482,6 +483,8 @@ args:
 	return recv, args
 }
 
+var resNameRE = regexp.MustCompile(`\bres_[A-Za-z0-9]+_[0-9]+\b`)
+
 func funcFullName(f *types.Func) string {
 	return f.FullName()
 }
@@ -489,6 +492,14 @@ func funcFullName(f *types.Func) string {
 func (fv *FuncVC) evalFuncCall(call *ast.CallExpr, f *types.Func, st *State) []Val {
 	n := len(fv.copyOuts)
 	out := fv.evalFuncCall0(call, f, st)
+	// the first result of the k-th call (on this path) of a function or method named F is res_F_k in callarg clauses:
+	// lets a contract say that one call's result is exactly another call's argument (composition order)
+	if len(out) > 0 && fv.mode == "full" && fv.fi.Contract != nil && len(fv.fi.Contract.CallArgs) > 0 {
+		if fv.callResults == nil {
+			fv.callResults = map[string]Val{}
+		}
+		fv.callResults[fmt.Sprintf("res_%s_%d", f.Name(), fv.nextOrd("resname:"+f.Name()))] = out[0]
+	}
 	for _, co := range fv.copyOuts[n:] {
 		co()
 	}
@@ -550,7 +561,23 @@ func (fv *FuncVC) evalFuncCall0(call *ast.CallExpr, f *types.Func, st *State) []
 				if ca.Idx >= len(args) {
 					specFail("callarg %s@%d: no argument %d", full, k, ca.Idx)
 				}
-				want := fv.specEval(ca.Expr, fv.specScope(st, fv.entry, false))
+				casc := fv.specScope(st, fv.entry, false)
+				for rn, rv := range fv.callResults {
+					casc.bound[rn] = rv
+				}
+				// a result name that no earlier call on this path has produced: the composition the clause asks for
+				// is not there — a failed obligation, not a contract that "cannot be generated"
+				missing := ""
+				for _, rn := range resNameRE.FindAllString(ca.Text, -1) {
+					if _, ok := fv.callResults[rn]; !ok {
+						missing = rn
+					}
+				}
+				if missing != "" {
+					fv.oblig(st, "post", fmt.Sprintf("callarg:%s@%d:%d", full, k, ca.Idx), fmt.Sprintf("argument %d of call %d to %s is %s (no call has produced %s before this one)", ca.Idx, k, full, ca.Text, missing), "false")
+					continue
+				}
+				want := fv.specEval(ca.Expr, casc)
 				if args[ca.Idx].S == SRef && want.S != SRef && want.GoT != nil {
 					// the argument was boxed into an interface parameter: box the expected value the same way
 					if at := fv.typeOf(call.Args[ca.Idx]); at != nil {
